@@ -281,8 +281,8 @@ pub fn read_all(f: &mut FFile, chunk: usize, limit: usize) -> Result<Vec<u8>, FE
 /// timestamps and (optionally) file contents.
 pub fn lib_tree(dir: &FDir, read_data: bool, skip_open: &dyn Fn(&str) -> bool, path: &str, depth: usize) -> Result<Vec<TNode>, String> {
     let mut out = Vec::new();
-    if depth > 40 {
-        return Err(format!("library listing nests deeper than 40 at {}", path));
+    if depth > 120 {
+        return Err(format!("library listing nests deeper than 120 at {}", path));
     }
     let mut count = 0usize;
     for r in dir.iter() {
